@@ -989,6 +989,9 @@ package rosmar
 //@   ensures [C03,C10,C12:PutDDoc.onetxn] oneTxn() && sqlAllInTxn() && lockedThroughout("c.bucket.mutex")
 //@   ensures [C12:PutDDoc.drops-old-first] stmtCount("insert", "designDocs") >= 1 || stmtCount("insert", "views") >= 1 ==> stmtCount("delete", "designDocs") == 1 && stmtParamOf("delete", "designDocs", 0, "where:collection") == c.id && stmtParamOf("delete", "designDocs", 0, "where:name") == designDoc
 //@   ensures [C12:PutDDoc.views-never-updated-in-place] stmtCount("update", "views") == 0 && stmtCount("upsert", "views") == 0 && stmtCount("update", "designDocs") == 0 && stmtCount("upsert", "designDocs") == 0
+//@   ensures [C12:PutDDoc.skips-only-an-unchanged-design-doc] result == nil && stmtCount("insert", "designDocs") == 0 && count("ext:DeepEqual") >= 1 ==> extret("DeepEqual", 0)
+//@   ensures [C12:PutDDoc.writes-a-changed-design-doc] result == nil && count("ext:DeepEqual") >= 1 && !extret("DeepEqual", 0) ==> stmtCount("insert", "designDocs") == 1
+//@   ensures [C12:PutDDoc.forgets-compiled-views] result == nil && stmtCount("insert", "designDocs") == 1 ==> count("call:Collection.forgetCachedViews") >= 1 && callarg("Collection.forgetCachedViews", 1) == designDoc
 //@   ensures [C20:PutDDoc.unlocked] any: nolocks()
 //@
 // A view query re-indexes first unless the index is already at the collection's mark or the caller allowed staleness.
